@@ -1,1 +1,113 @@
-From XV Require Import lib.Bytes gen.Styling C17.Model.
+(* C17/Properties.v — the property theorems of C17 and nothing else.
+   "The styling decoder is lossless, chunk-independent and well-bracketed."
+
+   [decode input reads deof] is the model of a styling.Decoder over a reader
+   that delivers [input] in reads of the sizes [reads] (then everything that is
+   left), reporting io.EOF together with the last bytes iff [deof]; it returns
+   the observations (Token().Data, Token().Info, Style(), Quote()) of every
+   successful Next and the way the loop ended.  [ref_decode input] is the
+   chunk-free reading: every token is delimited on all remaining input. *)
+From XV Require Import lib.Bytes gen.Styling C17.Model C17.Proofs.
+
+(* Termination without panic: every run, for every input and every chunking,
+   ends with io.EOF or with bufio.ErrTooLong — never with a panic (nil
+   quoteSplit dereference, slice bounds in the Info computation are total in the
+   model) and never out of the fuel that bounds the model's loops. *)
+Theorem C17_terminates_no_panic : forall input reads deof,
+  snd (decode input reads deof) = EEOF \/ snd (decode input reads deof) = ETooLong.
+Proof. exact decode_ends. Qed.
+Print Assumptions C17_terminates_no_panic.
+
+(* Losslessness, full statement: false of the code because of bufio.Scanner's
+   64 KiB token limit (known finding C17/decoder/lossless/too-long). *)
+Definition C17_lossless_statement : Prop := forall input reads deof,
+  flat_map o_data (fst (decode input reads deof)) = input.
+
+Theorem C17_lossless_refuted : ~ C17_lossless_statement.
+Proof.
+  intros H. destruct lossless_refuted as [input [reads [deof N]]]. exact (N (H input reads deof)).
+Qed.
+Print Assumptions C17_lossless_refuted.
+
+(* What holds for every input and chunking: the token data concatenated is a
+   prefix of the input, and all of it whenever the run ends with io.EOF. *)
+Theorem C17_lossless_partial : forall input reads deof os e,
+  decode input reads deof = (os, e) ->
+  exists tail, input = flat_map o_data os ++ tail /\ (e = EEOF -> tail = []).
+Proof. exact decode_lossless. Qed.
+Print Assumptions C17_lossless_partial.
+
+(* Chunk independence, full statement: false at the boundary of the 64 KiB limit
+   (an undecided token of exactly 65536 bytes is returned when io.EOF arrives
+   with the data and is ErrTooLong otherwise; same known finding). *)
+Definition C17_chunk_independent_statement : Prop := forall input r1 e1 r2 e2,
+  decode input r1 e1 = decode input r2 e2.
+
+Theorem C17_chunk_independent_refuted : ~ C17_chunk_independent_statement.
+Proof.
+  intros H. destruct chunk_independence_refuted as [input [r1 [e1 [r2 [e2 N]]]]].
+  exact (N (H input r1 e1 r2 e2)).
+Qed.
+Print Assumptions C17_chunk_independent_refuted.
+
+(* For every input on which the chunk-free reading does not hit the limit, every
+   chunking (any read sizes, EOF with or after the last bytes) gives exactly the
+   chunk-free token sequence: data, info strings, style masks, quote depths and
+   the final io.EOF.  Hence any two chunkings agree. *)
+Theorem C17_chunk_independent_partial : forall input,
+  snd (ref_decode input) <> ETooLong ->
+  forall reads deof, decode input reads deof = ref_decode input.
+Proof. exact decode_chunk_free. Qed.
+Print Assumptions C17_chunk_independent_partial.
+
+Theorem C17_chunk_independent_any_two : forall input,
+  snd (ref_decode input) <> ETooLong ->
+  forall r1 e1 r2 e2, decode input r1 e1 = decode input r2 e2.
+Proof.
+  intros input H r1 e1 r2 e2.
+  rewrite (decode_chunk_free input H r1 e1), (decode_chunk_free input H r2 e2). reflexivity.
+Qed.
+Print Assumptions C17_chunk_independent_any_two.
+
+(* The mechanism: once the split function has returned a token on a buffer, it
+   returns the same token and reaches the same state on every extension of that
+   buffer, at EOF or not; and a request for more data can be repeated. *)
+Theorem C17_scan_extension_stable : forall ds data n ds' e b,
+  scan ds data false = STok n ds' -> scan ds (data ++ e) b = STok n ds'.
+Proof. exact scan_ext. Qed.
+Print Assumptions C17_scan_extension_stable.
+
+Theorem C17_scan_more_repeatable : forall ds data ds1,
+  scan ds data false = SMore ds1 -> data <> [] ->
+  forall e b, scan ds1 (data ++ e) b = scan ds (data ++ e) b.
+Proof. exact scan_more_idem. Qed.
+Print Assumptions C17_scan_more_repeatable.
+
+(* Every token is a non-empty prefix of the data the split function was given. *)
+Theorem C17_scan_advance_in_range : forall ds data b n ds',
+  scan ds data b = STok n ds' -> 0 < n /\ n <= length data.
+Proof. exact scan_bounds. Qed.
+Print Assumptions C17_scan_advance_in_range.
+
+(* Bracket discipline of every run ([brackets_ok], Model.v): on every token a
+   start or end directive bit implies its style bit; span starts and ends are
+   properly nested (an end closes the innermost open span, of its own kind; no
+   kind is opened twice); the span style bits of every token are exactly the
+   open spans; no token inside a span contains a line break, so every span is
+   closed before its line ends; no directive of any kind starts inside a
+   preformatted span; and at io.EOF no span is open.  (After ErrTooLong the
+   sequence is cut, so the last clause is not claimed.) *)
+Theorem C17_brackets : forall input reads deof,
+  brackets_ok (fst (decode input reads deof)) (snd (decode input reads deof)) = true.
+Proof. exact decode_brackets_ok. Qed.
+Print Assumptions C17_brackets.
+
+(* The constants the proofs rely on are what the source says now: the fence is
+   three backticks, U+FFFD is no space, and the eighteen Style bits are distinct
+   single bits with the span classes disjoint from each other and from the
+   block bits. *)
+Theorem C17_tables : 
+  fence = [c_tick; c_tick; c_tick] /\ is_space rune_error = false /\
+  Forall single all_bits /\ span_bit_classes_disjoint = true /\ NoDup all_bits.
+Proof. exact tables_ok. Qed.
+Print Assumptions C17_tables.
